@@ -74,6 +74,14 @@ check("C14", "model_checking",
       "Trusted: the column rules in checks/c14.py (fixed_to_ref_free) feeding the reference free-form lexer of C02; the token splitter that chooses break positions. Breaks inside tokens/literals are not generated.",
       "bounded-exhaustive line-sequence product against a reference lexer + free/fixed differential over all break positions", "DESIGN.md 5/C14")
 
+check("C20", "fault_enumeration",
+      "Every corruption of a fixed catalogue (truncation at every statement boundary, deletion of each END, duplicated/misplaced CONTAINS, stray END, every prefix+suffix "
+      "splice of two sources, 40 malformed-construct inputs incl. undecodable bytes and unterminated literals, broken copies carrying the names of a valid file) placed "
+      "first / between / last in the file order of a valid 3-file project; each run under a watchdog. Differential oracle against the run without the extra file: "
+      "canonical tree, page identifiers and project lists of the other files unchanged, rejected file named in a diagnostic, none of its entities registered, run completes.",
+      "Trusted: the differential oracle and canonicaliser; default settings (dbg). Genuine defects (correlate-stage errors abort the whole run) are listed known findings matched by error class.",
+      "exhaustive fault enumeration (one corrupted file per execution, all positions) with differential oracle", "DESIGN.md 5/C20")
+
 ALL = [f"C{i:02d}" for i in range(1, 21)]
 PENDING_REASON = "check not built yet in this round (planned: see DESIGN.md section 5); will be claimed once its exhaustive check exists"
 
